@@ -25,6 +25,9 @@ class UserBlock(nn.Module):
         y = self.c1(torch.relu(self.c0(x)))
         if self.tail == 'fn':
             return torch.relu(y)
+        if self.tail == 'drop':
+            # behaviour depends on the module's own training flag (read at call time, not at trace time)
+            return F.dropout(y, 0.5, training=self.training)
         if self.tail == 'add':
             return y + self.c0(x)
         return y
@@ -41,6 +44,8 @@ def make_branch(kind, cin, cout, i):
         return nn.Sequential(nn.Conv2d(cin, cout, 3, padding=1), nn.Conv2d(cout, cout, 1))
     if kind == 'user':
         return UserBlock(cin, cout, 'layer')
+    if kind == 'userdrop':
+        return UserBlock(cin, cout, 'drop') if i % 2 == 0 else nn.Conv2d(cin, cout, 1)
     if kind == 'userfn':
         return UserBlock(cin, cout, 'fn') if i % 2 == 0 else nn.Conv2d(cin, cout, 1)
     if kind == 'useradd':
